@@ -22,7 +22,7 @@ class CmpError(Exception):
     pass
 
 
-CTL = {'n': 0, 'fail': -1, 'hook': None, 'serial': 0, 'live': False, 'failsym': None, 'failed_at': 0}
+CTL = {'n': 0, 'fail': -1, 'hook': None, 'serial': 0, 'live': False, 'failsym': None, 'failed_at': 0, 'hooksym': None, 'hookfn': None, 'hooked_at': 0}
 
 
 def reset(fail=-1, hook=None):
@@ -34,6 +34,9 @@ def reset(fail=-1, hook=None):
     CTL['failsym'] = None
     CTL['failed_at'] = 0
     CTL['live'] = False
+    CTL['hooksym'] = None
+    CTL['hookfn'] = None
+    CTL['hooked_at'] = 0
 
 
 def reset_counter(fail=-1, hook=None):
@@ -43,6 +46,9 @@ def reset_counter(fail=-1, hook=None):
     CTL['hook'] = hook
     CTL['failsym'] = None
     CTL['failed_at'] = 0
+    CTL['hooksym'] = None
+    CTL['hookfn'] = None
+    CTL['hooked_at'] = 0
 
 
 class live:
@@ -64,6 +70,15 @@ def _tick():
     n = CTL['n']
     if n == CTL['fail']:
         raise CmpError(n)
+    hs = CTL['hooksym']
+    if hs is not None:
+        # symbolic schedule point: "does the environment act during THIS comparison?"
+        with _common.traced():
+            hit = True if hs == n else False
+        if hit:
+            CTL['hooksym'] = None
+            CTL['hooked_at'] = n
+            CTL['hookfn']()
     fs = CTL['failsym']
     if fs is not None:
         # symbolic fault index: "does the fault strike at THIS comparison?" is a
